@@ -29,6 +29,9 @@ RULE = 'source x configuration; non-trivial = listing carries at least one code 
 BOUNDS = {'quick': 'radix {16,8,2,36} x share {c,p,a} on all sources (radix other than 16 on generated + 40 corpus sources)', 'thorough': 'radix 2..36 on all sources'}
 ASSUMPTIONS = ['a listing unit wider than one byte is the little- or big-endian value of its bytes, consistently within one source']
 
+FLOATS = ['0.1', '2.5', '1.0e300', '1.5e-300', '0.000001', '1.0e15', '1.0e16', '0.33333333333333331', '123456789.12345679', '1.2345678901234567e-5',
+          '1.2345678901234567e20', '0.00012345678901234501', '123456789012345.59', '123456789012345678.0', '1.7976931348623157e308', '2.2250738585072014e-308',
+          '9.8765432109876543e-100', '7.7777777777777777e77', '-6.6666666666666666e-66', '5.5555555555555558', '99999999999999.984', '0.99999999999999989']
 GEN = {
     'g_macinc': ('\tcpu z80\nm\tmacro x\n\tld a,x\n\tdb x,x,x,x,x,x,x,x,x\n\tendm\n\torg 100h\n\tm 1\n\tinclude "i2.inc"\n\tphase 8000h\nl1:\tjp l1\n\tdephase\n\trept 2\n\tnop\n\tendm\n'
                  '\tdb 1,2,3,4,5,6,7,8,9,10\nval\tequ 1234h\nhi\tequ 0c0deh\nhb\tequ 0a0h\n\tshared val,l1,hi,hb\n', {'i2.inc': '\tnop\n\tm 2\n'}),
@@ -40,6 +43,8 @@ GEN = {
     # statements that put an annotation (=value, =>TRUE) into the code column, partly on lines that are not listed, in front of code lines
     'g_listctl': ('\tcpu z80\n\torg 100h\nm\tmacro\nv\tset 1\n\tendm\n\tmacexp off\n\tm\n\tld a,5\n\tmacexp on\n\tm\n\tld b,6\n\tlisting purecode\nf\tequ 1\n\tif f\n\tld c,7\n\tendif\n'
                   '\tif 0\n\tnop\n\tendif\n\tld d,8\n\tlisting noskipped\n\tif 0\n\tnop\n\telse\n\tld e,9\n\tendif\n\tlisting on\nw\tequ 1234h\n\tld h,10\n\tshared w\n', {}),
+    # float symbols: the symbol table must show the value, to the digits it prints
+    'g_floats': ('\tcpu 8086\n' + ''.join('f%d\tequ %s\n' % (i, v) for i, v in enumerate(FLOATS)) + '\tdb 1\n', {}),
     'g_c30': ('\tcpu 320c30\n\torg 100h\nx:\tword 1,2,3\n\tldi r0,r1\n\tshared x\n', {}),
 }
 SHARE = {'c': ['-c'], 'p': ['-p'], 'a': ['-a'], 'ch': ['-c', '-h'], 'ph': ['-p', '-h'], 'ah': ['-a', '-h']}      # -h: hexadecimal digits in lower case
@@ -367,6 +372,23 @@ def evaluate(case):
         v = parse_int(m.group(2), radix)
         if v is not None:
             symlst[m.group(1).upper()] = v
+    if t == 'g_floats':
+        # the table prints up to 14 significant digits (fewer with a long exponent): what it prints must be digits of the value
+        from decimal import Decimal
+        seen = 0
+        for m in re.finditer(r'[ *](F\d+) :\s+(-?[0-9.]+(?:[Ee]-?[0-9]+)?) - \|', lst):
+            true = Decimal(float(FLOATS[int(m.group(1)[1:])]))
+            shown = Decimal(m.group(2))
+            mant = m.group(2).upper().split('E')[0].replace('-', '')
+            digits = mant.replace('.', '').lstrip('0')
+            if 'E' not in m.group(2).upper() and '.' not in mant:
+                digits = digits.rstrip('0')       # (an integer written out: the zeros at its end may be fill)
+            tol = Decimal(10) ** (1 - len(digits)) if len(digits) >= 12 else Decimal('2e-15')
+            seen += 1
+            if abs(shown - true) > tol * abs(true):
+                return core.R(False, 'float-symbol', 'symbols/float-digits', 'symbol %s = %s is listed as %s: wrong in the digits shown, on %s' % (m.group(1), FLOATS[int(m.group(1)[1:])], m.group(2), desc))
+        if seen != len(FLOATS):
+            return core.R(False, 'float-symbol', 'symbols/float-missing', '%d of %d float symbols found in the symbol table on %s' % (seen, len(FLOATS), desc))
     both = set(symmap) & set(symlst)
     for s in sorted(both):
         if symmap[s] != symlst[s] and (symmap[s] - symlst[s]) % (1 << 64) != 0 and (symmap[s] & 0xffffffff) != (symlst[s] & 0xffffffff):
